@@ -71,7 +71,48 @@ def _chain(pt, fns):
     return x
 
 
+def _impl_slicer(case):
+    """an image-slicer step: pixels are labelled by a mask, each slice has its own transform; the backward direction labels world points
+    with the mapper's user-supplied inverse (ranges of the second world coordinate) and applies the inverse of that slice's transform"""
+    from astropy import units as u
+    from gwcs import coordinate_frames as cf
+    from gwcs import selector
+    ny, nx = 60, 100
+    labels = np.zeros((ny, nx), dtype=int)
+    slices, ranges = {}, {}
+    for k, (x0, x1, beta0) in enumerate(case["slices"], start=1):
+        labels[:, x0:x1 + 1] = k
+        xc = (x0 + x1) / 2.0
+        slices[k] = (models.Shift(-xc) | models.Scale(case["sx"])) & (models.Scale(0.01) | models.Shift(beta0))
+        ranges[(beta0 - 0.5, beta0 + 0.01 * ny + 0.5)] = models.Mapping((0,), n_inputs=2) | models.Const1D(k)
+    pix2label = selector.LabelMapperArray(labels)
+    pix2label.inverse = selector.LabelMapperRange(("alpha", "beta"), ranges, inputs_mapping=models.Mapping((1,), n_inputs=2))
+    slicer = selector.RegionsSelector(inputs=("x", "y"), outputs=("alpha", "beta"), selector=slices, label_mapper=pix2label)
+    det = cf.Frame2D(name="detector", axes_order=(0, 1), unit=(u.pix, u.pix))
+    slit = cf.Frame2D(name="slit", axes_order=(0, 1), unit=(u.arcsec, u.arcsec), axes_names=("alpha", "beta"))
+    w = gw.WCS([(det, slicer), (slit, None)])
+    x = np.array([p_[0] for p_ in case["pix"]], dtype=float)
+    y = np.array([p_[1] for p_ in case["pix"]], dtype=float)
+    res = {}
+    try:
+        a, b = w(x, y)
+        res["fwd_finite"] = bool(np.all(np.isfinite(a)) and np.all(np.isfinite(b)))
+        for nm_, f_ in (("invert", lambda: w.invert(a, b)), ("backward", lambda: w.backward_transform(a, b)),
+                        ("pointwise", lambda: tuple(np.array(c_) for c_ in zip(*[w.invert(float(ai), float(bi)) for ai, bi in zip(a, b)])))):
+            try:
+                xb, yb = f_()
+                res[nm_] = float(np.nanmax(np.hypot(np.asarray(xb, dtype=float) - x, np.asarray(yb, dtype=float) - y))) \
+                    if np.all(np.isfinite(xb)) and np.all(np.isfinite(yb)) else "nan"
+            except Exception as e:
+                res[nm_] = "raised %s: %s" % (type(e).__name__, str(e)[:80])
+    except Exception as e:
+        res["err"] = type(e).__name__ + ":" + str(e)[:100]
+    return res
+
+
 def impl(case):
+    if case["kind"] == "slicer":
+        return _impl_slicer(case)
     if case["kind"] == "sky":
         return _impl_sky(case)
     w = _build(case)
@@ -184,6 +225,13 @@ def _impl_sky(case):
 
 def oracle(case, res):
     out = []
+    if case["kind"] == "slicer":
+        if "err" in res or not res.get("fwd_finite"):
+            return [("slicer", "forward evaluation of the slicer WCS failed: %s" % res.get("err", "non-finite values inside the slices"))]
+        for nm_ in ("invert", "backward", "pointwise"):
+            if not (isinstance(res[nm_], float) and res[nm_] <= 1e-9):
+                out.append(("slicer", "%s of the world points of pixels inside the slices does not return the pixels: %s" % (nm_, res[nm_])))
+        return out
     if case["kind"] == "sky":
         p = case["params"]
         if res["nan"]:
@@ -240,7 +288,7 @@ def oracle(case, res):
 
 
 def request(case, res):
-    if case["kind"] == "sky":
+    if case["kind"] in ("sky", "slicer"):
         return None
     return {"trs": [t for t in case["trs"] if t is not None], "pts": case["pts"], "world": case["world"]}
 
@@ -260,13 +308,15 @@ def compare(case, res, resp):
 
 
 def nontrivial(case, res):
-    if case["kind"] == "sky":
+    if case["kind"] in ("sky", "slicer"):
         return True
     return len(case["trs"]) >= 3 and res["has_inverse"]
 
 
 def stats(case, res, st):
     st["kind_" + case["kind"]] += 1
+    if case["kind"] == "slicer":
+        return
     if case["kind"] == "sky":
         st["proj_" + case["params"]["proj"]] += 1
         return
@@ -283,6 +333,16 @@ def _has(t, tag):
 
 def gen(rng, tier):
     q = tier == "quick"
+    for _ in range(6 if q else 120):
+        # image slicer: 2 or 3 slices of columns, each with its own transform; the label mapper carries a user-supplied inverse
+        ns = rng.choice([2, 3])
+        edges = sorted(rng.sample(range(5, 95, 5), 2 * ns))
+        slices = [[edges[2 * i], edges[2 * i + 1], 10.0 * (i + 1)] for i in range(ns)]
+        pix = []
+        for _p in range(8):
+            x0, x1, _b = rng.choice(slices)
+            pix.append([x0 + rng.random() * (x1 - x0), rng.uniform(0, 59)])
+        yield {"kind": "slicer", "slices": slices, "sx": rng.choice([0.1, 0.25, -0.5]), "pix": pix}
     for _ in range(160 if q else 6000):
         nsteps = rng.randint(1, 5)
         lawful = rng.random() < 0.6
